@@ -25,6 +25,7 @@ static const VSpec VM_SPEC[VM_NS] = {
 #define VM_NCFG 4
 #include "tier_c/machine_common.hpp"
 struct R1 : St<1> {}; struct R2 : St<2> {}; struct Y0 : St<3> {}; struct Y : St<4> {}; struct R1b : St<5> {}; struct Z : St<6> {};
+#define VM_FOR_STATES(F_) F_(R1, 1) F_(R2, 2) F_(Y0, 3) F_(Y, 4) F_(R1b, 5) F_(Z, 6)
 #include "tier_c/view.hpp"
 #include "tier_c/steps.hpp"
 #include "tier_c/entries.hpp"
